@@ -94,6 +94,7 @@ struct held_view {
 
 struct olc_harness final : harness {
   std::string prop = "C03";
+  std::string shape;  // "pairs": two threads x one operation (full 2-preemption search fits the cap)
   std::string default_prop() override { return "C03"; }
 
   void setup_process() override {
@@ -117,7 +118,8 @@ struct olc_harness final : harness {
   std::string gen_program(std::uint64_t seed, std::uint64_t index, verif::stats* st) override {
     vrng r(verif::hash_combine(seed, index));
     const bool scans = prop == "C09" || (prop == "C04" && r.chance(1, 3)) || (prop == "C14" && r.chance(1, 3));
-    const unsigned T = r.chance(3, 5) ? 2 : 3;
+    const bool pairs = shape == "pairs";
+    const unsigned T = pairs ? 2 : (r.chance(3, 5) ? 2 : 3);
     static const unsigned fans[] = {1, 2, 2, 2, 3, 4, 4, 5, 5, 16, 17, 48, 49};
     unsigned fan = fans[(index % 13 + r.below(2)) % 13];
     const unsigned depth = static_cast<unsigned>(r.below(3));   // inner levels above the focus node
@@ -183,7 +185,7 @@ struct olc_harness final : harness {
     for (unsigned i = 0; i < child_bytes.size(); ++i) (i < fan ? present_children : absent_children).push_back(mk(child_bytes[i], 0));
     unsigned scanners = 0;
     for (unsigned t = 0; t < T; ++t) {
-      const unsigned n = 1 + static_cast<unsigned>(r.below(T == 2 ? 3 : 2));
+      const unsigned n = pairs ? 1 : 1 + static_cast<unsigned>(r.below(T == 2 ? 3 : 2));
       const bool scanner = scans && (scanners == 0 ? (t == 0 || r.chance(1, 2)) : r.chance(1, 4));
       if (scanner) ++scanners;
       for (unsigned i = 0; i < n; ++i) {
@@ -679,5 +681,6 @@ int main(int argc, char** argv) {
   olc_harness H;
   verif::args a(argc, argv);
   H.prop = a.str("prop", "C03");
+  H.shape = a.str("shape", "");
   return sched_main(argc, argv, H);
 }
